@@ -27,6 +27,7 @@ from .values import (
     State,
     SuperVal,
     View,
+    XReal,
     is_z3,
     sort_of_type,
 )
@@ -106,7 +107,7 @@ class BuiltinMixin(CallMixin):
             raise EngineError("int() of non-int")
         if name == "float":
             v = a[0]
-            if isinstance(v, float):
+            if isinstance(v, XReal):
                 return [(st, v)]
             return [(st, ops.to_real(v))]
         if name == "cast":
@@ -116,12 +117,9 @@ class BuiltinMixin(CallMixin):
                 raise EngineError("min/max of iterable")
             r = a[0]
             for x in a[1:]:
-                if isinstance(r, float) or isinstance(x, float):
-                    inf = float("inf")
-                    if name == "min":
-                        r = x if r == inf else r
-                    else:
-                        r = inf
+                if isinstance(r, XReal) or isinstance(x, XReal):
+                    xa, xb = ops.xr(r), ops.xr(x)
+                    r = ops.xr_ite(ops.xr_lt(xb, xa), xb, xa) if name == "min" else ops.xr_ite(ops.xr_lt(xa, xb), xb, xa)
                     continue
                 if smt.is_real(r) or smt.is_real(x):
                     r, x = ops.to_real(r), ops.to_real(x)
@@ -401,6 +399,10 @@ class BuiltinMixin(CallMixin):
             if z3.is_false(a):
                 return z3.BoolVal(True)
             return z3.Implies(a, ops.truth(st, self.eval1(e.args[1], st, ctx)))
+        if name == "pre":
+            pst, pfr = ctx.specials["$pre"]
+            sub = ctx.sub(frame=pfr, old=None)
+            return self.eval1(e.args[0], pst, sub)
         if name == "old":
             if ctx.old is None:
                 raise EngineError("old() outside a two-state clause")
@@ -472,8 +474,16 @@ class BuiltinMixin(CallMixin):
             return z3.Implies(ops.truth(st, a[0]), ops.truth(st, a[1]))
         if name == "iff":
             return ops.truth(st, a[0]) == ops.truth(st, a[1])
+        if name == "isinf":
+            return ops.xr(a[0]).isinf
+        if name == "fin":
+            return ops.xr(a[0]).v
+        if name == "xreal":
+            return XReal(ops.truth(st, a[0]), ops.to_real(a[1]))
         if name == "ite":
             x, y = a[1], a[2]
+            if isinstance(x, XReal) or isinstance(y, XReal):
+                return ops.xr_ite(ops.truth(st, a[0]), ops.xr(x), ops.xr(y))
             if ops.is_byteslike(x):
                 x, y = B(x), B(y)
             if is_z3(x) and is_z3(y) and x.sort() != y.sort():
@@ -500,6 +510,13 @@ class BuiltinMixin(CallMixin):
             if not isinstance(v, View):
                 raise EngineError(f"{name}() of a non-view {v!r}")
             return v.lo if name == "view_lo" else v.hi
+        if name == "base":
+            v = args[0]
+            if isinstance(v, Opt):
+                v = v.val
+            if isinstance(v, View):
+                return st.get(v.base, "data")
+            return B(v)
         if name == "view_of":
             v, b = args[0], args[1]
             if isinstance(v, Opt):
